@@ -53,7 +53,7 @@ CLAIMED = {
                 'ponder-move result only after it was found in a generated move list; (5) the tablebase PV extension truncates the PV at '
                 '(6) the MultiPV count that indexes / offsets the root list or is handed on with it is, at every use, min(.., rootMoves.size()) and the list is not resized after the clamp. '
                 'the number of moves it replayed. Right level: legality of the answer in every configuration follows from where the '
-                'answer can come from - a provenance/typestate fact that holds for all positions, limits and options at once. Added clause (7): the printed text of a move is its UCI form (printer interpreted per promotion code). (8) MoveList::filter decides membership in the searchmoves list by the full move identity. (9) every entry of a multi-PV report is printed at most once. (10) = C04.1: every checkmate score of negaScout / quiesce is \'mated in 0\' of the one linear family that notifyPV, the hash table and the 50-move margin decode.',
+                'answer can come from - a provenance/typestate fact that holds for all positions, limits and options at once. Added clause (7): the printed text of a move is its UCI form (printer interpreted per promotion code). (8) MoveList::filter decides membership in the searchmoves list by the full move identity. (9) every entry of a multi-PV report is printed at most once. (10) = C04.1: every checkmate score of negaScout / quiesce is \'mated in 0\' of the one linear family that notifyPV, the hash table and the 50-move margin decode. (11) = C04.9 the ABDADA control value BUSY is never read as a score.',
         'design_ref': 'DESIGN.md section 2, C03',
         'note': TB + ' Assumes the legal move generator is correct (C01). Does not decide score ranges or MultiPV distinctness.',
         'technique': 'custom static analysis: reaching-definition provenance, must-precede dominance, flag-sensitive untrusted-value typestate, index agreement',
@@ -66,7 +66,7 @@ CLAIMED = {
                 'TT ply shift (store at p1, read at p2), the win/loss classification and the 16-bit range. This is a genuine necessary '
                 'condition of "mate N means mate in N": any disagreement between an encoder and a decoder shifts every announced '
                 'distance. Second clause (K3 typestate): a score found by searching after a null move never leaves negaScout (return, hash store, search-tree info) unless it was shown not to be a win score or replaced by a non-win bound. Right level for the first clause: a finite arithmetic agreement; that a reported mate exists at all is game-tree '
-                'semantics and is not claimed. Added clauses (4) bound-type discipline of adopted entry scores and isCutOff, (5) ply-shift codec and decode / re-store ply agreement (shared with C08). (6) every hash store of negaScout happens only in an unrestricted search. (7) every forward-pruning skip in negaScout\'s move loop requires a non-losing running maximum (!isLoseScore(best)), so a node never reports \'mated\' with unsearched quiet defences. (8) a move deferred by the ABDADA first pass (marked BUSY - reduction) is not skipped by the second pass, for every reduction 0..15.',
+                'semantics and is not claimed. Added clauses (4) bound-type discipline of adopted entry scores and isCutOff, (5) ply-shift codec and decode / re-store ply agreement (shared with C08). (6) every hash store of negaScout happens only in an unrestricted search. (7) every forward-pruning skip in negaScout\'s move loop requires a non-losing running maximum (!isLoseScore(best)), so a node never reports \'mated\' with unsearched quiet defences. (8) a move deferred by the ABDADA first pass (marked BUSY - reduction) is not skipped by the second pass, for every reduction 0..15. (9) a recursive call that can be reached with the exclusive-probe request still set is followed directly by the BUSY test on its result; every other recursive call is made with the request cleared.',
         'design_ref': 'DESIGN.md section 2, C04',
         'note': TB + ' Decides only the encoding agreement, not the existence of the announced mates nor the soundness of pruning near mate scores.',
         'technique': 'custom static analysis: exhaustive constant evaluation of extracted expression trees over a finite domain (encoder/decoder composition)',
